@@ -32,13 +32,14 @@ fn source(line: &Value, conc: &Concretisation, flags: bool) -> Scenario {
     let ids = u32_list(&line["ids"]);
     for (i, m) in ids.iter().enumerate() {
         let id = conc.get(*m);
-        // flags: the third id obsolete and replaced by the second, the last id obsolete
+        // flags: the third id obsolete and replaced by the second, the last id obsolete and replaced by an id outside the ontology
         let (obsolete, repl) = if !flags {
             (false, None)
         } else if i == 2 {
             (true, Some(conc.get(ids[1])))
         } else if i + 1 == ids.len() {
-            (true, None)
+            // obsolete, replaced by a term that is NOT part of the source ontology: the id is copied as it is
+            (true, Some(7_777_777))
         } else {
             (false, None)
         };
